@@ -29,6 +29,7 @@ func (eng *Engine) isModelled(name string) bool {
 var pureExternalPrefixes = []string{"fmt.", "errors.", "log.", "(*log.Logger).", "strconv.", "time.Now", "time.Since", "time.Unix", "(time.Time).", "(time.Duration).",
 	"math.", "strings.", "unicode.", "unicode/utf8.", "os.Getpid", "runtime.", "hash/crc32.", "context.", "math/bits.",
 	"github.com/zeebo/xxh3.", "(*pgregory.net/rand.Rand).", "pgregory.net/rand.", "(*strings.Builder).String", "path/filepath.", "reflect.TypeOf",
+	"bytes.Index", "bytes.Contains", "bytes.HasPrefix", "bytes.HasSuffix", "bytes.Compare", "bytes.LastIndex", "bytes.Count",
 	"time.AfterFunc", "time.NewTimer", "time.NewTicker", "(*time.Timer).Stop", "(*time.Timer).Reset", "(*time.Ticker).Stop"}
 
 func (eng *Engine) isPureExternal(name string) bool {
